@@ -365,7 +365,8 @@ def parse_dump(path: Path, must_contain: str | None = None, limit: int | None = 
 
 
 def validate_traces(module: Path, traces: list, *, label: str, timeout: int = 1800,
-                    spec: str = "Spec", chunk: int = 4000, extra_env: dict | None = None):
+                    spec: str = "Spec", chunk: int = 4000, extra_env: dict | None = None,
+                    constants: dict | None = None):
     """Batch trace validation: write traces as JSON, run a total trace spec with -workers 1,
     collect <<"V", id, verdict, pos>> lines.  Returns ({id: (verdict, pos)}, [TLCResult])."""
     import json
@@ -373,7 +374,7 @@ def validate_traces(module: Path, traces: list, *, label: str, timeout: int = 18
     results = []
     wd = WORK / label
     wd.mkdir(parents=True, exist_ok=True)
-    cfg = write_cfg(wd / "trace.cfg", spec=spec)
+    cfg = write_cfg(wd / "trace.cfg", spec=spec, constants=constants)
     for k in range(0, len(traces), chunk):
         part = traces[k:k + chunk]
         f = wd / f"traces_{k}.json"
